@@ -1219,7 +1219,7 @@ def build_jobs(ctx, nodriver=False):
         nops = None if T or p == 5 else 6          # quick, p = 7: 6 of the 9 pair operations per pair, rotating
         for lo, hi in _chunks(0, n, max(1, n * n // 8000)):
             add_pairs(str(p), ('grid', lo, hi, n), (hi - lo) * n, 1, nops)
-        cnt = ctx.scale(6000, 200000 if p == 7 else 40000)
+        cnt = ctx.scale(6000, 400000 if p == 7 else 100000)
         sample = _sample_pairs(ctx.subrng('pairs3', p), p, cnt)
         for lo, hi in _chunks(0, cnt, max(1, cnt // 6000)):
             add_pairs(str(p), ('list', sample[lo:hi]), hi - lo, 1)
